@@ -40,7 +40,7 @@ THEOREMS = [
     'C04_quad_congruence', 'C04_frame_transform_gq',
     'C04_frame_transform_plane', 'C04_frame_transform_sphere',
     'C04_frame_transform_cylinder', 'C04_frame_transform_cone',
-    'C04_frame_transform_cone_sheet',
+    'C04_frame_transform_cone_sheet', 'C04_frame_transform_torus',
     'C04_normalize_matrix_9_reproduces', 'C04_normalize_matrix_6_reproduces',
     'C04_normalize_matrix_6_cols_reproduces',
     'C04_normalize_matrix_3_reproduces',
